@@ -2098,6 +2098,10 @@ func (ls *LState) Resume(th *LState, fn *LFunction, args ...LValue) (ResumeState
 		th.Panic = panicWithoutTraceback
 		th.Dead = false
 	} else {
+		if !th.reg.canHold(len(args)) {
+			// refused before anything is pushed onto the suspended thread
+			return ResumeError, newApiErrorS(ApiErrorRun, "registry overflow"), nil
+		}
 		for _, arg := range args {
 			th.Push(arg)
 		}
